@@ -1860,3 +1860,9 @@ V(id='c34-difference-scheme-too-few-bits', prop='C34', file='mpmath/calculus/ode
   old="        ctx.prec = max(orig, tol_prec)*(1+n)", new="        ctx.prec = orig*(1+n)", expect='fire:O-R9:ode_taylor')
 V(id='c34-difference-scheme-benign-more-bits', prop='C34', file='mpmath/calculus/odes.py',
   old="        ctx.prec = max(orig, tol_prec)*(1+n)", new="        ctx.prec = (orig + tol_prec)*(2+n)", expect='silent')
+
+# ---- C43 F-R9 ----
+V(id='c43-even-integer-threshold-too-low', prop='C43', file='mpmath/math2.py',
+  old="    if x >= 9007199254740992.0:", new="    if x >= 4503599627370496.0:", expect='fire:F-R9:_reduce_half')
+V(id='c43-even-integer-threshold-benign', prop='C43', file='mpmath/math2.py',
+  old="    if x >= 9007199254740992.0:", new="    if x >= 2.0**60:", expect='silent')
